@@ -92,7 +92,7 @@ def step_functions(m):
             p = m.adt_path_of_impl(i)
             if p is None or p not in m.f.adts:
                 continue
-            b = m.body(m.impl_fn_path(i, fn))
+            b = m.body_inlined(m.impl_fn_path(i, fn))
             if b is not None:
                 out.append((p.rsplit('::', 1)[-1], p, b, tr))
     return out
